@@ -310,6 +310,8 @@ class Lib:
         run.assume(seq.wellformed())
         run.assume(so.forall_idx(n, lambda i: And(dom[a[i]], posf(a[i]) == i)))
         run.assume(so.forall(K, lambda k: Implies(dom[k], And(0 <= posf(k), posf(k) < n, a[posf(k)] == k))))
+        if isinstance(d, SSet):
+            run.assume(n == so.cnt(dom, BoolVal(True)))       # the enumeration has as many elements as the set
         return seq
 
     # ----------------------------------------------------------------------------------------------
@@ -474,7 +476,9 @@ class Lib:
                 return IntVal(len(v.items))
             if isinstance(v, SObj):
                 return run.call_contract(v.cls + '.__len__', [v], {}, lineno)
-            if isinstance(v, (SDict, SSet)):
+            if isinstance(v, SSet):
+                return so.cnt(v.dom, BoolVal(True))
+            if isinstance(v, (SDict,)):
                 return self.card(run, v)
             if isinstance(v, SGraph):
                 return v.N
@@ -549,7 +553,12 @@ class Lib:
             v = args[0]
             if isinstance(v, SList) and not isinstance(v.esort, TupleSpec):
                 dom = fresh('set_dom', z3.ArraySort(v.esort, B))
-                run.assume(so.forall(v.esort, lambda k: dom[k] == so.exists_idx(v.n, lambda i: v.a[i] == k)))
+                if getattr(v, 'memberf', None) is not None:
+                    run.assume(so.forall(v.esort, lambda k: dom[k] == v.memberf(k)))
+                    # cardinality of the set of a duplicate-free list is the list's length (finite-cardinality fact)
+                    run.assume(so.cnt(dom, BoolVal(True)) == v.n)
+                else:
+                    run.assume(so.forall(v.esort, lambda k: dom[k] == so.exists_idx(v.n, lambda i: v.a[i] == k)))
                 return SSet(v.esort, dom=dom, name='set')
             if isinstance(v, SSet):
                 return v.snap()
